@@ -376,6 +376,41 @@ func runC41(c *core.Ctx) {
 			}
 			c.Decide(bad == "", "C41.count", fn, "counter "+n+": one increment site per pass over a participant's entries", c.P.Rel(ss[0].at.Pos()), sprintf("%d site(s) %s", len(ss), bad))
 		}
+		// one entry, one vote: within the handling of a single entry (no loop header crossed) the
+		// increment of one counter is never followed by the increment of another — an empty-block vote
+		// is not also a vote for the proposal it names
+		{
+			var heads []ssa.Instruction
+			for _, b := range fn.Blocks {
+				for _, p := range b.Preds {
+					if b.Dominates(p) && len(b.Instrs) > 0 {
+						heads = append(heads, b.Instrs[len(b.Instrs)-1])
+					}
+				}
+			}
+			bad := ""
+			for _, n1 := range names {
+				for _, a := range by[n1] {
+					r := ir.NewReach(fn)
+					for _, h := range heads {
+						r.Barrier[h] = true
+					}
+					r.Barrier[lp.Next] = true
+					r.Run(a.at)
+					for _, n2 := range names {
+						if n2 == n1 {
+							continue
+						}
+						for _, b := range by[n2] {
+							if r.Instr(b.at) {
+								bad = sprintf("after counting the entry for %s (%s) the same entry is also counted for %s (%s)", n1, c.P.Rel(a.at.Pos()), n2, c.P.Rel(b.at.Pos()))
+							}
+						}
+					}
+				}
+			}
+			c.Decide(bad == "", "C41.count", fn, "an entry is counted for one counter only (empty-block votes and proposal votes are exclusive)", c.P.Rel(lp.Range.Pos()), bad)
+		}
 	}
 
 	// ---------- thresholds
